@@ -54,8 +54,10 @@ ProbeOK(r, pr) ==
          /\ pr.smin = "kOptimal" /\ pr.smax = "kOptimal" /\ pr.vmin = b * c * UNIT /\ pr.vmax = b * c * UNIT
     [] r.gadget = "integer" ->
          LET x == Fix(pr, "x")  c == Fix(pr, "c") IN
+         \* (ub, cub and c are in 1/den units; den = 1 for the integral instances)
          (x * c <= r.ub /\ x <= r.xub /\ c <= r.cub) =>
-            /\ pr.smin = "kOptimal" /\ pr.smax = "kOptimal" /\ pr.vmin = x * c * UNIT /\ pr.vmax = x * c * UNIT
+            /\ pr.smin = "kOptimal" /\ pr.smax = "kOptimal"
+            /\ pr.vmin = (x * c * UNIT) \div r.den /\ pr.vmax = (x * c * UNIT) \div r.den
     [] r.gadget = "piecewise" ->
          LET x == Fix(pr, "x")
              In == {i \in 1..Len(r.ranges) : x >= r.ranges[i][1] /\ x <= r.ranges[i][2]} IN
